@@ -47,7 +47,7 @@ def run_one(m):
         shutil.rmtree(tmp, ignore_errors=True)
 
 
-def trim_go_cache(limit_gb=20):
+def trim_go_cache(limit_gb=80):
     """Scratch copies used to fill the Go build cache (one set of export data per scratch path) until the disk was
     full; the loader now builds with -trimpath, which makes the entries path-independent. Safety valve all the same."""
     try:
